@@ -7,6 +7,7 @@ import (
 	"strings"
 	"sync"
 
+	"github.com/cloudwego/eino/callbacks"
 	"github.com/cloudwego/eino/components/document"
 	"github.com/cloudwego/eino/components/embedding"
 	"github.com/cloudwego/eino/components/indexer"
@@ -143,7 +144,6 @@ func buildCkpt(r *lib.Rng, z *zoo) (*object, error) {
 	if withSub {
 		shared = append(shared, compose.WithLambdaOption(lopt{Val: "S2"}).DesignateNodeWithPath(compose.NewNodePath("sg", "i1")))
 	}
-	shared = shared[:len(shared):len(shared)]
 	// model: the uninterrupted run, plus the trail of interrupts the compile options imply
 	d := &dGraph{dag: dag, state: true}
 	d.node("a", fn1("FV", "a"), 0, "pre="+fn1("HPreLog", "a"))
@@ -177,11 +177,16 @@ func buildCkpt(r *lib.Rng, z *zoo) (*object, error) {
 	d.edge("b", "c")
 	d.edge("c", compose.END)
 	d.defaultMax()
-	trail += "I(b|||)"
+	if after && mlast == "a" {
+		trail = "I(b|a||)" // b follows a directly: interrupt after a and before b are one interrupt
+	} else {
+		trail += "I(b|||)"
+	}
 	mshared := []string{opT(0, "S", []string{"b"})}
 	if withSub {
 		mshared = append(mshared, opT(0, "S2", []string{"sg", "i1"}))
 	}
+	shared = spare(shared) // spare capacity: an append to the options inside a run must not reach it
 	return &object{
 		desc: d, depth: 2,
 		mcall: func(sp spec, si int) string {
@@ -296,7 +301,24 @@ func (f *fakeRetriever) Retrieve(ctx context.Context, q string, opts ...retrieve
 
 type fakeXf struct{ z *zoo }
 
-func (f *fakeXf) Transform(ctx context.Context, docs []*schema.Document, opts ...document.TransformerOption) ([]*schema.Document, error) {
+// the transformer fires its callbacks itself (components may): callbacks.OnStart / OnEnd
+// work on the manager the graph put into the node's context
+func (f *fakeXf) IsCallbacksEnabled() bool { return true }
+func (f *fakeXf) GetType() string          { return "FakeXf" }
+
+func (f *fakeXf) Transform(ctx context.Context, docs []*schema.Document, opts ...document.TransformerOption) (out []*schema.Document, err error) {
+	ctx = callbacks.OnStart(ctx, &document.TransformerCallbackInput{Input: docs})
+	defer func() {
+		if err != nil {
+			callbacks.OnError(ctx, err)
+		} else {
+			callbacks.OnEnd(ctx, &document.TransformerCallbackOutput{Output: out})
+		}
+	}()
+	return f.transform(ctx, docs, opts...)
+}
+
+func (f *fakeXf) transform(ctx context.Context, docs []*schema.Document, opts ...document.TransformerOption) ([]*schema.Document, error) {
 	ev(ctx, "c:xf")
 	o := coptStr(ctx, "xf", document.GetTransformerImplSpecificOptions(&copt{}, opts...))
 	out := make([]*schema.Document, 0, len(docs))
@@ -464,6 +486,7 @@ func buildComp(r *lib.Rng, z *zoo) (*object, error) {
 	}
 	d.defaultMax()
 	mshared := []string{opT(3, "S"), opT(7, "S", []string{"emb"}), opT(1, "S")}
+	shared = spare(shared) // spare capacity: an append to the options inside a run must not reach it
 	return &object{
 		desc: d,
 		mcall: func(sp spec, si int) string {
@@ -585,6 +608,7 @@ func buildReent(r *lib.Rng, z *zoo) (*object, error) {
 	}
 	d.defaultMax()
 	mshared := []string{opT(0, "S", []string{"a"})}
+	shared = spare(shared) // spare capacity: an append to the options inside a run must not reach it
 	return &object{
 		desc: d, depth: 4,
 		mcall: func(sp spec, si int) string {
@@ -701,6 +725,7 @@ func buildMulti(r *lib.Rng, z *zoo) (*object, error) {
 	d.edge("e1", compose.END)
 	d.defaultMax()
 	mshared := []string{opT(0, "S", []string{"sub", "c2"}, []string{"e0", "w1"}), opT(0, "S1", []string{"m1"}, []string{"e1"})}
+	shared = spare(shared) // spare capacity: an append to the options inside a run must not reach it
 	return &object{
 		desc: d, depth: 2,
 		mcall: func(sp spec, si int) string {
@@ -783,6 +808,7 @@ func buildEmbed(r *lib.Rng, z *zoo) (*object, error) {
 	for _, e := range [][2]string{{compose.START, "ag"}, {compose.START, "ag2"}, {"ag", "out"}, {"ag2", "out"}, {"out", compose.END}} {
 		d.edge(e[0], e[1])
 	}
+	shared = spare(shared) // spare capacity: an append to the options inside a run must not reach it
 	return &object{
 		desc: d, depth: 2,
 		mcall: func(sp spec, si int) string {
